@@ -274,7 +274,10 @@ pub fn self_checks(quads: &[Q], o: &mut Outcome) {
         o.fails.push(("relabel_mismatch".into(), format!("{}", o.rq.len())));
     }
     let lines: Vec<&str> = out.split_inclusive('\n').collect();
-    if lines.windows(2).any(|w| w[0].as_bytes() >= w[1].as_bytes()) || lines.len() != quads.len() {
+    // (a literal as graph name — generalized RDF, not an RDF dataset — is the one case where the term-wise sort of
+    // normalize_with is not the code-point order of the lines: `"` < `.`; see SophiaProofs.C05.sorted_is_line_order)
+    let literal_graph = quads.iter().any(|q| matches!(q.g, Some(T::Lit(..)) | Some(T::Lang(..))));
+    if (!literal_graph && lines.windows(2).any(|w| w[0].as_bytes() >= w[1].as_bytes())) || lines.len() != quads.len() {
         o.fails.push(("unsorted_or_dup".into(), format!("{}", lines.len())));
     }
     // generalized RDF (literal subject / non-IRI predicate) has no N-Quads syntax to parse back
@@ -705,7 +708,23 @@ pub fn exec_digest(line: &str) -> Option<String> {
     match f.as_slice() {
         ["h", hn, hx] => {
             let data = unhex_bytes(hx)?;
-            Some(format!("h={}", digest_hex(hn, &data)))
+            // the same bytes fed through `HashFunction::update` in uneven chunks must give the same digest
+            fn chunked<H: HashFunction>(data: &[u8]) -> String {
+                let mut h = H::initialize();
+                let mut i = 0;
+                let mut step = 1;
+                while i < data.len() {
+                    let j = (i + step).min(data.len());
+                    h.update(&data[i..j]);
+                    i = j;
+                    step = step * 3 + 1;
+                }
+                hex_bytes(h.finalize().as_ref())
+            }
+            let whole = digest_hex(hn, &data);
+            let parts = if *hn == "sha384" { chunked::<Sha384>(&data) } else { chunked::<Sha256>(&data) };
+            let fail = if whole != parts { " FAIL.update_chunking=1" } else { "" };
+            Some(format!("h={}{}", whole, fail))
         }
         _ => None,
     }
